@@ -531,7 +531,7 @@ struct Row {
     has_untrusted: bool,
     failures: Vec<String>,
     /// direct API: (normal mode result, anchors-only mode result, expected normal ok, expected anchors-only ok)
-    api: Option<(String, String, bool, bool)>,
+    api: Option<(String, String, Option<bool>, Option<bool>)>,
     witness: Value,
     asset: Arc<Vec<u8>>,
 }
@@ -628,7 +628,9 @@ fn eval_chain(p: &ChainParams, asset: &assets::Asset) -> ChainResult {
         let api_time = if c.p.shape.is_validity() { Some(pki::now_unix()) } else { None };
         let on_allow = on_allow_list(&st.allow);
         let eku_ok = c.p.eku.accepted(&st.ekus);
-        let ee_profile_ok = c.p.eku.profile_ok(&st.ekus) && c.p.shape != Shape::EeExpired;
+        // a self-signed end entity violates the certificate profile (C06): state Trusted is not demanded
+        let self_signed_ee = c.p.depth == 0 && c.ee.issuer == c.ee.spec.subject;
+        let ee_profile_ok = c.p.eku.profile_ok(&st.ekus) && c.p.shape != Shape::EeExpired && !self_signed_ee;
         let mut unjudged = None;
         let expect = if c.p.shape == Shape::EeExpired && !on_allow {
             unjudged = Some("validity of the end-entity certificate itself is a profile rule (C06); the chain verdict at 'now' is dominated by it".to_string());
@@ -672,7 +674,19 @@ fn eval_chain(p: &ChainParams, asset: &assets::Asset) -> ChainResult {
                 let only = report::catch_sdk(|| ctp.check_certificate_trust(&c.x5rest, &c.ee.der, api_time));
                 let n = normal.map(api_result).unwrap_or_else(|p| format!("Panic({p})"));
                 let a = only.map(api_result).unwrap_or_else(|p| format!("Panic({p})"));
-                Some((n, a, on_allow || ok_now, on_allow || sys_ok_now))
+                // the API documentation makes an accepted EKU part of the verdict but the Reader path
+                // enforces it elsewhere: with a verifying chain and an unaccepted EKU either answer is
+                // tolerated here (None = not judged)
+                let tri = |chain_ok: bool| {
+                    if on_allow || (chain_ok && eku_ok) {
+                        Some(true)
+                    } else if !chain_ok {
+                        Some(false)
+                    } else {
+                        None
+                    }
+                };
+                Some((n, a, tri(ok_now), tri(sys_ok_now)))
             }
         } else {
             None
@@ -759,7 +773,7 @@ fn main() {
         "accepted EKUs = {emailProtection, documentSigning} ∪ trust_config; timeStamping/OCSPSigning-only and vendor OIDs are not generated".into(),
         "allow-list hash form = base64(SHA-256(DER)) on a line of its own".into(),
         "state Trusted is demanded only when the end entity is also profile-conforming; the codes signingCredential.trusted/untrusted are judged always".into(),
-        "policy API (CertificateTrustPolicy::check_certificate_trust): only Ok/Err is judged, against the chain reference without the EKU rule (the Reader path is where EKU is judged)".into(),
+        "policy API (CertificateTrustPolicy::check_certificate_trust): only Ok/Err is judged; with a verifying chain and an unaccepted EKU either answer is tolerated (the Reader path is where EKU is judged); trust-anchors-only mode is only reachable through this API (no Settings key sets it)".into(),
         "keys come from the OpenSSL RNG (not from VERIF_SEED); witnesses carry the certificates".into(),
     ];
     match pki::openssl_cli_version() {
@@ -921,16 +935,19 @@ fn judge(run: &mut Run, table: &mut BTreeMap<String, u64>, row: &Row, debug: boo
                 "trust-anchors-only mode accepted a user anchor",
                 row.wit(),
             );
-        } else if only.starts_with("Ok") != *exp_only {
+        } else if exp_only.is_some_and(|e| only.starts_with("Ok") != e) {
             run.violation(
-                &format!("api|anchors-only|{}|{}|{}->{}", chain_class, mechanism(&sc), exp_only, short(only)),
+                &format!("api|anchors-only|{}|{}|{:?}->{}", chain_class, mechanism(&sc), exp_only, short(only)),
                 "trust-anchors-only mode: result differs from the reference over the system anchors alone",
                 row.wit(),
             );
         }
-        if normal.starts_with("Ok") != *exp_normal {
+        if exp_normal.is_none() || exp_only.is_none() {
+            run.count("policy_api_unjudged_eku_unaccepted_chain_ok", 1);
+        }
+        if exp_normal.is_some_and(|e| normal.starts_with("Ok") != e) {
             run.violation(
-                &format!("api|normal|{}|{}|{}->{}", chain_class, mechanism(&sc), exp_normal, short(normal)),
+                &format!("api|normal|{}|{}|{:?}->{}", chain_class, mechanism(&sc), exp_normal, short(normal)),
                 "check_certificate_trust differs from the reference chain verdict",
                 row.wit(),
             );
